@@ -51,6 +51,26 @@ def strategy(tier):
     return st.one_of(sup, sup, sup, uns)
 
 
+# hand-picked corner patterns (supported grammar), each generated with the extreme and a middle RNG
+# outcome of every draw: very large and nested repeat counts, lazy bounds above max_repeat, ranges inside /
+# across the surrogate block and up to the last code point, classes mixing every item kind
+CORNERS = [
+    "(?:ab){40000}", "a{70000}", "(?:[a-z]{200}){400}", "(?:ab){30000}", "(?:(?:(?:a+)+)+)+", "a{33}?", "a{40,}?",
+    "[0-9a-f]{36,40}?", "(?:\\d\\w){35,}?", ".{0,64}?", "(?:a|bc|def){100}", "(?:[ab]{2}){0,64}",
+    "[\ud800-\udbff]", "[\udc00-\udfff]{3}", "[0-9\ud900-\ud9ff]", "[\u0100-\uffff]{5}", "[\ud000-\ud900]{5}",
+    "[\udf00-\ue100]{5}", "[\U00010000-\U0010ffff]{3}", "[^\x21-\x7e]{6}", "[^!-~]", "[^a-\uffff]{4}", "[^\\w\\d]{4}",
+    "[^a-f\\d]{8}", "[^\\da-f]{8}", "x[^y]z", "[\\d\\w-]{6}", "[a\\-z]{4}", "[]a]{3}", "[\\]\\^]{3}", "[-a]{3}",
+    "(?P<n>a)(?:b)(c){2}", "^$", "^a*$", "(?:)", "(?:|a)", "a|", "\\.\\\\\\n\\t", "\\$\\^\\*\\+\\?", "é{3}ß?€+",
+    "(?:a{2}){3}{2}" if False else "(?:(?:a{2}){3}){2}", "a{0}", "a{0,0}b", "(?:a?){30}", "\\d{1,2}-\\w{0,3}_.{2}",
+]
+
+
+def exhaustive(tier):
+    for p in CORNERS:
+        for script in ([], [0.0] * 64, [1.0] * 64, [0.5, 0.0, 1.0] * 20):
+            yield {"text": p, "max_repeat": 32, "seed": None, "rng": script, "corner": True}
+
+
 class _Timeout(Exception):
     pass
 
@@ -78,14 +98,20 @@ def _check_text(case, ctx):
     try:
         kind = fuzz_c09.classify(parsed)
     except fuzz_c09.Skip:
-        return
-    with rng.seeded(case["seed"]):
+        if not case.get("corner"):
+            return
+        kind = "supported"      # the hand-picked corner patterns are within the supported grammar
+    cm = rng.seeded(case["seed"]) if case.get("seed") is not None else rng.scripted(case.get("rng", []))
+    with cm:
         try:
             s = RegexGenerator(Random(), max_repeat=case["max_repeat"]).generate(p)
         except Exception as e:  # noqa
             if kind == "unsupported":
                 return
             raise Violation("supported-raises", f"generate({p!r}) raised {e!r}")
+    ctx.label("corner-pattern")
+    if len(p) > 3:
+        ctx.mark_nontrivial(case, sample_class=("corner", p[:6]))
     if re.fullmatch(p, s) is None:
         raise Violation("nonmatch" if kind == "supported" else "unsupported-nonmatch",
                         f"generate({p!r}, max_repeat={case['max_repeat']}) = {s!r} does not fully match")
